@@ -115,6 +115,14 @@ func Now() time.Time {
 	return time.Now()
 }
 
+// Advance lets virtual time pass in the controlled run in progress (a handler that takes long);
+// outside a run it does nothing.
+func Advance(d time.Duration) {
+	if r := active.Load(); r != nil {
+		r.voffset += d
+	}
+}
+
 // Until and Since replace time.Until and time.Since in instrumented files.
 func Until(t time.Time) time.Duration { return t.Sub(Now()) }
 func Since(t time.Time) time.Duration { return Now().Sub(t) }
